@@ -389,8 +389,21 @@ def run(ctx):
                 # that hand back a member of the caller's set meet constructors that narrow their operands
                 tg3 = gen.Typed(rng, this=case.this, aliases=case.aliases, maxdepth=1)
                 r1, r2 = tg3.ref(gen.NUM, 0), tg3.ref(gen.NUM, 0)
+                members = None
                 if r1 is not None and r2 is not None:
                     members = gen.pick(rng, ((r1,), (r1, r1), (r1, r2), (r1, A.num('0'))))
+                    if rng.random() < 0.35:
+                        # membership of a reference in a range that is unbounded on one side
+                        inf, k = ('const', 'INF'), gen.pick(rng, (A.num('0'), A.num('3'), r2))
+                        rg = gen.pick(rng, (('range', k, inf, False, False), ('range', k, inf, True, False),
+                                            ('range', A.neg(inf), k, False, False), ('range', A.neg(inf), k, False, True),
+                                            ('range', k, inf, False, True), ('range', A.neg(inf), inf, False, False)))
+                        case.e = ('bin', 'in', r1, rg)
+                        if rng.random() < 0.4:
+                            case.e = ('bin', gen.pick(rng, ('and', 'or')), case.e, ('bin', '>', r2, A.num('1')))
+                        t = gen.BOOL
+                        members = None
+                if r1 is not None and r2 is not None and members is not None:
                     call = ('call', gen.pick(rng, ('max', 'min', 'sum', 'prod')), (('set', members),))
                     call = A.neg(call) if rng.random() < 0.3 else call
                     case.e = ('bin', gen.pick(rng, ('>', '<=', '+', '*')), call, gen.pick(rng, (A.num('3'), r2)))
